@@ -34,10 +34,41 @@ type scenario struct {
 	Splitting   bool   `json:"splitting"`
 	Substitutes bool   `json:"substitutes"`
 	Multi       bool   `json:"multi"`
+	Mini        string `json:"mini"` // none | ids (identifiers + syntax, white space kept) | all
+	// group mix
+	Assets   int      `json:"assets,omitempty"`
+	Lazy     int      `json:"lazy,omitempty"`
+	Names    string   `json:"names,omitempty"`
+	CSS      bool     `json:"css,omitempty"`
+	Shared   bool     `json:"shared,omitempty"`
+	Order    string   `json:"order,omitempty"`
+	Kinds    []string `json:"kinds,omitempty"`
+	Coincide bool     `json:"coincide,omitempty"`
+	// group res
+	Mech     string            `json:"mech,omitempty"`
+	Platform string            `json:"platform,omitempty"`
+	MF       string            `json:"mf,omitempty"`
+	How      string            `json:"how,omitempty"`
+	Preserve bool              `json:"preserve,omitempty"`
+	Expect   map[string]string `json:"expect,omitempty"` // reference kind -> the input the specifier under test resolves to
+	Empty    []string          `json:"empty,omitempty"`  // inputs expected without code in the output
+	Disabled []string          `json:"disabled,omitempty"`
 }
 
 func (s scenario) id() string {
-	return fmt.Sprintf("%s/%s/m%v/%s/%s/%s", s.Family, s.Paths, s.Minify, s.Format, s.SM, s.Legal)
+	if s.Mini == "" {
+		s.Mini = "none"
+		if s.Minify {
+			s.Mini = "all"
+		}
+	}
+	switch s.Family {
+	case "mix":
+		return fmt.Sprintf("mix/a%d/l%d/%s/css%v/sh%v/%s/%s/%s", s.Assets, s.Lazy, s.Names, s.CSS, s.Shared, s.Order, s.Paths, s.Mini)
+	case "res":
+		return fmt.Sprintf("res/%s/%s/%s/%s/p%v/%s/%s", s.Mech, s.Platform, s.MF, s.How, s.Preserve, s.Format, s.Mini)
+	}
+	return fmt.Sprintf("%s/%s/%s/%s/%s/%s", s.Family, s.Paths, s.Mini, s.Format, s.SM, s.Legal)
 }
 
 // ---------- the record MetaState.tla validates ----------
@@ -78,6 +109,8 @@ type inImpRec struct {
 	External bool   `json:"external"`
 	Spec     string `json:"spec"`     // the specifier as written ("original"), or the path for external imports; "<pattern>" for a glob
 	Bundled  bool   `json:"bundled"`  // the path names a file that was read into the bundle
+	Disabled bool   `json:"disabled"` // the path names a module that the browser map disables ("(disabled):" prefix)
+	File     string `json:"file"`     // the file the path stands for (see fileOf)
 	Injected bool   `json:"injected"` // the path names a file of the inject option (an import the option adds to every file)
 }
 type srcImpRec struct {
@@ -103,6 +136,10 @@ type markerRec struct {
 	Inp string `json:"inp"`
 	Len int    `json:"len"`
 }
+type glueRec struct {
+	Out   string `json:"out"`
+	Bytes int    `json:"bytes"` // the bytes of the emitted file outside every input's sections (printed by the linker itself)
+}
 
 type record struct {
 	ID         int          `json:"id"`
@@ -124,6 +161,12 @@ type record struct {
 	Present    []presentRec `json:"present"`
 	Markers    []markerRec  `json:"markers"`
 	Exact      []exactRec   `json:"exact"`
+	Glue       []glueRec    `json:"glue"`      // for outputs all of whose text is delimited
+	Roots      []string     `json:"roots"`     // entry points + injected files: where the import graph starts
+	Exec       bool         `json:"exec"`      // the emitted bundle was run (node/meta_exec.js)
+	Ran        []string     `json:"ran"`       // the modules that were evaluated
+	REdges     []realEdge   `json:"redges"`    // (importer, specifier, kind) -> id of the module really received
+	Recorders  []string     `json:"recorders"` // the files that would record their evaluation
 	scen       scenario
 	files      map[string]string
 	optsStr    string
@@ -144,10 +187,23 @@ type world struct {
 	inject   []string
 	stdin    *api.StdinOptions
 	assets   map[string]bool // inputs loaded with the file loader (their contribution to JS/CSS is the path string)
+	// group res
+	noInput                       map[string]bool   // files on disk that are configuration, never inputs
+	recorders                     []string          // modules that record their evaluation at run time
+	alias                         map[string]string // the alias option
+	symlinks                      map[string]string
+	preserve                      bool
+	idAlias                       map[string]string // id a module reports -> the name it is an input under (symlinks preserved)
+	extRemap                      map[string]string // external path -> the specifier it was written as (package.json "imports")
+	plugins                       []api.Plugin
+	platform                      string
+	mainFields                    []string
+	exec                          bool
+	specUnderTest, specUnderTest2 string
 }
 
 func materialise(s scenario, root string) world {
-	w := world{files: map[string]string{}, markers: map[string]string{}, assets: map[string]bool{}}
+	w := world{files: map[string]string{}, markers: map[string]string{}, assets: map[string]bool{}, noInput: map[string]bool{}}
 	add := func(p, content, marker string) {
 		w.files[p] = content
 		if marker != "" {
@@ -156,6 +212,10 @@ func materialise(s scenario, root string) world {
 	}
 	sjs := "/*! legal comment of s */\nexport const s = \"" + mk("s") + "\"\nexport const sUnused = \"never-used\"\n"
 	switch s.Family {
+	case "mix":
+		materialiseMix(s, &w)
+	case "res":
+		materialiseRes(s, root, &w)
 	case "js":
 		add("src/a.js", "import {s} from './s.js'\nimport {u} from './unused.js'\nconst c = require('./c.cjs')\nconsole.log(\""+mk("a")+"\", s, c)\nexport const fromA = 1\n", mk("a"))
 		add("src/s.js", sjs, mk("s"))
@@ -249,12 +309,31 @@ func options(s scenario, root string, w world) api.BuildOptions {
 	case "iife":
 		o.Format = api.FormatIIFE
 	}
-	if s.Paths != "flat" {
+	switch s.Paths {
+	case "flat":
+	case "deepchunks":
+		o.ChunkNames = "chunks/deeply/nested/[name]-[hash]"
+	case "deepassets":
+		o.AssetNames = "static/media/files/[name]-[hash]"
+		o.ChunkNames = "c-[hash]"
+	default:
 		o.Outdir = "out/deep"
 		o.Outbase = "."
 		o.EntryNames = "e/[dir]/[name]-[hash]"
 		o.ChunkNames = "c/k/[name]-[hash]"
 		o.AssetNames = "assets/[name]-[hash]"
+	}
+	o.Alias = w.alias
+	o.Plugins = w.plugins
+	o.MainFields = w.mainFields
+	switch w.platform {
+	case "node":
+		o.Platform = api.PlatformNode
+	case "browser":
+		o.Platform = api.PlatformBrowser
+	}
+	if w.preserve {
+		o.PreserveSymlinks = true
 	}
 	if s.Paths == "public" {
 		o.PublicPath = publicPath
@@ -277,7 +356,10 @@ func options(s scenario, root string, w world) api.BuildOptions {
 	case "external":
 		o.LegalComments = api.LegalCommentsExternal
 	}
-	if s.Minify {
+	switch {
+	case s.Mini == "ids":
+		o.MinifyIdentifiers, o.MinifySyntax = true, true
+	case s.Minify || s.Mini == "all":
 		o.MinifyWhitespace, o.MinifyIdentifiers, o.MinifySyntax = true, true, true
 	}
 	return o
@@ -335,6 +417,19 @@ type built struct {
 	errs  []string
 }
 
+// fileOf: the file an input name of the metafile stands for.  esbuild names a
+// module that the "browser" map disables "(disabled):<path>" (an empty module,
+// size 0) and a file imported with import attributes "<path> with { ... }".
+func fileOf(p string) string {
+	p = strings.TrimPrefix(p, "(disabled):")
+	if i := strings.Index(p, " with { "); i >= 0 && strings.HasSuffix(p, "}") {
+		p = p[:i]
+	}
+	return p
+}
+
+func isDisabled(p string) bool { return strings.HasPrefix(p, "(disabled):") }
+
 func codeKind(p string) string {
 	switch path.Ext(p) {
 	case ".js":
@@ -350,11 +445,12 @@ func build(s scenario, idx int, root string) *built {
 	w := materialise(s, root)
 	disk := map[string]string{}
 	for p, c := range w.files {
-		if p != "<stdin>" {
+		if p != "<stdin>" && !strings.HasPrefix(p, "virt:") {
 			disk[p] = c
 		}
 	}
 	core.WriteTree(root, disk)
+	symErr := writeSymlinks(root, w.symlinks)
 	o := options(s, root, w)
 	res := api.Build(o)
 	b := &built{root: root, pp: o.PublicPath, outd: o.Outdir, w: w}
@@ -365,9 +461,13 @@ func build(s scenario, idx int, root string) *built {
 		Emitted: []emitted{}, Outputs: []outRec{}, OImports: []impRec{}, PImports: []impRec{}, OExports: []expRec{}, PExports: []expRec{},
 		OInputs: []contribRec{}, Inputs: []inputRec{}, IImports: []inImpRec{}, SImports: []srcImpRec{}, Read: []string{}, Sizes: []sizeRec{},
 		Entries: []string{}, DynTargets: []string{}, Present: []presentRec{}, Markers: []markerRec{}, Exact: []exactRec{}}
-	rc.optsStr = fmt.Sprintf("Outdir=%s EntryNames=%q ChunkNames=%q AssetNames=%q PublicPath=%q Format=%s Splitting=%v Sourcemap=%s LegalComments=%s Minify=%v External=%v Inject=%v entries=%v stdin=%v",
-		o.Outdir, o.EntryNames, o.ChunkNames, o.AssetNames, o.PublicPath, s.Format, s.Splitting, s.SM, s.Legal, s.Minify, w.external, w.inject, w.entries, w.stdin != nil)
+	rc.optsStr = fmt.Sprintf("Outdir=%s EntryNames=%q ChunkNames=%q AssetNames=%q PublicPath=%q Format=%s Splitting=%v Sourcemap=%s LegalComments=%s Minify=%v(%s) External=%v Inject=%v entries=%v stdin=%v Platform=%s MainFields=%v Alias=%v PreserveSymlinks=%v plugins=%d symlinks=%v",
+		o.Outdir, o.EntryNames, o.ChunkNames, o.AssetNames, o.PublicPath, s.Format, s.Splitting, s.SM, s.Legal, s.Minify, s.Mini, w.external, w.inject, w.entries, w.stdin != nil, w.platform, w.mainFields, w.alias, w.preserve, len(w.plugins), w.symlinks)
 	b.rc = rc
+	rc.Glue, rc.Roots, rc.Ran, rc.REdges, rc.Recorders = []glueRec{}, []string{}, []string{}, []realEdge{}, []string{}
+	if symErr != nil {
+		b.errs = append(b.errs, "symlink: "+symErr.Error())
+	}
 	if len(b.errs) > 0 {
 		return b
 	}
@@ -438,14 +538,20 @@ func build(s scenario, idx int, root string) *built {
 			if strings.Contains(spec, "*") {
 				spec = "<pattern>" // a glob-style import (a template of a non-literal import() argument)
 			}
-			rc.IImports = append(rc.IImports, inImpRec{Inp: p, Path: im.Path, Kind: im.Kind, External: im.External, Spec: spec, Bundled: bundled, Injected: injected})
+			if im.External && im.Original == "" && w.extRemap[im.Path] != "" {
+				spec = w.extRemap[im.Path] // an external import is listed by the path it was mapped to (package.json "imports")
+			}
+			rc.IImports = append(rc.IImports, inImpRec{Inp: p, Path: im.Path, Kind: im.Kind, External: im.External, Spec: spec, Bundled: bundled, Injected: injected,
+				Disabled: isDisabled(im.Path), File: fileOf(im.Path)})
 			if im.Kind == "dynamic-import" && !im.External {
 				rc.DynTargets = append(rc.DynTargets, im.Path)
 			}
 		}
-		if p == "<stdin>" {
+		if p == "<stdin>" || strings.HasPrefix(p, "virt:") {
 			rc.Sizes = append(rc.Sizes, sizeRec{Path: p, Size: len(w.files[p])})
-		} else if st, err := os.Stat(filepath.Join(root, p)); err == nil {
+		} else if isDisabled(p) {
+			rc.Sizes = append(rc.Sizes, sizeRec{Path: p, Size: 0}) // a disabled module is an empty module
+		} else if st, err := os.Stat(filepath.Join(root, fileOf(p))); err == nil {
 			rc.Sizes = append(rc.Sizes, sizeRec{Path: p, Size: int(st.Size())})
 		}
 	}
@@ -455,6 +561,7 @@ func build(s scenario, idx int, root string) *built {
 	if w.stdin != nil {
 		rc.Entries = append(rc.Entries, "<stdin>")
 	}
+	rc.Roots = append(append(rc.Roots, rc.Entries...), w.inject...)
 	for _, in := range sortedKeys(w.markers) {
 		rc.Markers = append(rc.Markers, markerRec{Inp: in, Len: len(w.markers[in])})
 	}
@@ -464,8 +571,12 @@ func build(s scenario, idx int, root string) *built {
 			if t.kind == "other" {
 				continue
 			}
-			for in, n := range sections(t.text, t.kind, inputSet) {
+			sec, glue, complete := sections(t.text, t.kind, inputSet, s.Format, s.Legal)
+			for in, n := range sec {
 				rc.Exact = append(rc.Exact, exactRec{Out: t.path, Inp: in, Expected: n})
+			}
+			if complete {
+				rc.Glue = append(rc.Glue, glueRec{Out: t.path, Bytes: glue})
 			}
 		}
 		sort.Slice(rc.Exact, func(i, j int) bool {
@@ -489,8 +600,17 @@ func build(s scenario, idx int, root string) *built {
 		if strings.HasSuffix(t.path, ".map") || strings.HasSuffix(t.path, ".LEGAL.txt") {
 			continue
 		}
-		for _, in := range sortedKeys(w.markers) {
-			if strings.Contains(t.text, w.markers[in]) {
+		names := map[string]string{} // input name -> marker
+		for in, m := range w.markers {
+			names[in] = m
+		}
+		for in := range inputSet {
+			if m, ok := w.markers[fileOf(in)]; ok && !isDisabled(in) {
+				names[in] = m
+			}
+		}
+		for _, in := range sortedKeys(names) {
+			if strings.Contains(t.text, names[in]) {
 				rc.Present = append(rc.Present, presentRec{Out: t.path, Inp: in, Via: "marker"})
 			} else if w.assets[in] && t.kind != "other" && assetOut[in] != "" && strings.Contains(t.text, assetOut[in]) {
 				// the code a file-loader input contributes to a JS/CSS file is the path of its emitted copy
@@ -498,16 +618,38 @@ func build(s scenario, idx int, root string) *built {
 			}
 		}
 	}
+	// the code of a disabled module is the empty wrapper registered under its name
+	for _, t := range b.texts {
+		for in := range inputSet {
+			// (white space minified: the wrapper is anonymous and cannot be told apart: taken as present)
+			if isDisabled(in) && t.kind == "js" && (strings.Contains(t.text, "\""+in+"\"") || s.Minify) {
+				rc.Present = append(rc.Present, presentRec{Out: t.path, Inp: in, Via: "path"})
+			}
+		}
+	}
+	sort.SliceStable(rc.Present, func(i, j int) bool {
+		if rc.Present[i].Out != rc.Present[j].Out {
+			return rc.Present[i].Out < rc.Present[j].Out
+		}
+		return rc.Present[i].Inp < rc.Present[j].Inp
+	})
 	return b
 }
 
-// sections measures, in an unminified output, the text the linker printed for
-// each input: the linker writes "<indent>// <path>\n" (CSS: "/* <path> */\n")
-// before the code of an input and one "\n" between the code of one input and
-// the comment of the next.  Only inputs all of whose sections are followed by
-// another path comment are reported (the end of the last section of a chunk
-// runs into text printed by the linker itself and cannot be delimited).
-func sections(text, kind string, inputs map[string]bool) map[string]int {
+// sections measures, in an output that keeps its white space, the text the
+// linker printed for each input, following the rule of generateChunkJS /
+// generateChunkCSS: the linker writes "<indent>// <path>\n" (CSS: "/* <path>
+// */\n") before the code of an input and one "\n" between the code of one
+// input and the comment of the next; the code of an input never starts or ends
+// with an empty line.  After the code of the last input the linker prints its
+// own tail: the export clause of an ES module ("export ..." in column 0: the
+// export keywords of the inputs themselves are removed by bundling), the
+// "0 && (module.exports = ...)" annotation of CommonJS output for node, the
+// "})();" of an IIFE, legal comments moved to the end of the file (every mode
+// except inline) and the link comments.  Everything outside the sections is
+// glue.  complete = every line of the file was assigned (no section under a
+// linker comment that names no input, as the stub of a glob import has).
+func sections(text, kind string, inputs map[string]bool, format, legal string) (total map[string]int, glue int, complete bool) {
 	lines := strings.SplitAfter(text, "\n")
 	// ordinary comments do not survive bundling, so every "// x" line (CSS: "/* x */") was
 	// written by the linker; one that does not name an input (the stub of a glob import, ...)
@@ -528,31 +670,65 @@ func sections(text, kind string, inputs map[string]bool) map[string]int {
 		}
 		return "\x00none"
 	}
-	total := map[string]int{}
-	open := map[string]bool{} // has a section that is not delimited
-	cur, n := "", 0
+	tail := func(l string) bool {
+		switch {
+		case strings.HasPrefix(l, "//# sourceMappingURL="), strings.HasPrefix(l, "/*# sourceMappingURL="):
+			return true
+		case legal != "inline" && (strings.HasPrefix(l, "/*!") || strings.HasPrefix(l, "//!")):
+			return true
+		case kind == "js" && format == "esm" && strings.HasPrefix(l, "export "):
+			return true
+		case kind == "js" && format == "cjs" && strings.HasPrefix(l, "0 && (module.exports"):
+			return true
+		case kind == "js" && format == "iife" && strings.HasPrefix(l, "})();"):
+			return true
+		}
+		return false
+	}
+	total = map[string]int{}
+	complete = true
+	cur, n, pending, last := "", 0, 0, ""
+	closeSection := func() {
+		if cur == "\x00none" {
+			complete = false
+		} else if cur != "" {
+			total[cur] += n
+			last = cur
+		}
+		glue += pending
+		cur, n, pending = "", 0, 0
+	}
 	for i, l := range lines {
 		if h := header(l); h != "" {
-			if cur != "" {
-				// the separator line before this comment is not part of the section
-				if i > 0 && lines[i-1] == "\n" {
-					n--
-				}
-				total[cur] += n
-			}
-			cur, n = h, 0
+			closeSection()
+			glue += len(l)
+			cur = h
 			continue
 		}
-		n += len(l)
+		if cur != "" && tail(l) {
+			closeSection()
+			for _, r := range lines[i:] {
+				glue += len(r)
+			}
+			break
+		}
+		switch {
+		case cur == "":
+			glue += len(l)
+		case l == "\n":
+			pending += len(l) // belongs to the section only if more code of it follows
+		default:
+			n += pending + len(l)
+			pending = 0
+		}
 	}
-	if cur != "" {
-		open[cur] = true
+	closeSection()
+	if !complete {
+		// the text under a linker comment that names no input belongs to an input this
+		// function cannot name: the input of the last section is not measured in such a file
+		delete(total, last)
 	}
-	for k := range open {
-		delete(total, k)
-	}
-	delete(total, "\x00none")
-	return total
+	return total, glue, complete
 }
 
 // ---------- re-parsing (node/imports_of.js) ----------
@@ -635,9 +811,14 @@ func (b *built) fill(byID map[string]*parsed, prefix string) error {
 		}
 	}
 	// the import statements of the input files themselves
+	isInput := map[string]bool{}
+	for _, in := range rc.Inputs {
+		isInput[in.Path] = true
+	}
 	for _, in := range sortedKeys(b.w.files) {
 		k := codeKindOfInput(in)
-		if k == "" {
+		if k == "" || (b.w.exec && !isInput[in]) {
+			// (group res: the world contains files that the resolution under test must NOT choose; they have no account)
 			continue
 		}
 		p := byID[prefix+"in:"+in]
@@ -718,7 +899,7 @@ func validate(r *core.Run, recs []*record) {
 		s := rc.scen
 		for _, inv := range v.Failing {
 			det, _ := json.Marshal(v.Detail[inv])
-			r.Violation(map[string]interface{}{"invariant": inv, "witness": witness(v.Detail[inv]), "family": s.Family, "paths": s.Paths, "minify": s.Minify, "format": s.Format, "sm": s.SM, "legal": s.Legal},
+			r.Violation(map[string]interface{}{"invariant": inv, "witness": witness(v.Detail[inv]), "family": s.Family, "paths": s.Paths, "minify": s.Minify, "mini": s.Mini, "format": s.Format, "sm": s.SM, "legal": s.Legal, "mech": s.Mech, "how": s.How, "scenario": s.id()},
 				fmt.Sprintf("real build violates %s (scenario %s): %s", inv, s.id(), string(det)),
 				map[string]interface{}{"scenario": s, "options": rc.optsStr, "files": rc.files, "record": rc, "metafile": rc.metafile, "detail": v.Detail[inv]})
 		}
@@ -726,6 +907,11 @@ func validate(r *core.Run, recs []*record) {
 }
 
 // ---------- the run ----------
+
+// measured coverage of the wider oracles (reported in the evidence)
+var cov struct {
+	exactSections, glueOutputs, executed, realEdges, mixedKindOutputs, redirected int
+}
 
 func runBatch(r *core.Run, scens []scenario, base int, drift *int) {
 	builds := make([]*built, len(scens))
@@ -749,6 +935,8 @@ func runBatch(r *core.Run, scens []scenario, base int, drift *int) {
 			if rel, err := filepath.Rel(cwd, p); err == nil {
 				p = filepath.ToSlash(rel)
 			}
+		} else if e.Str("ns") != "" {
+			p = e.Str("ns") + ":" + p
 		}
 		read[cwd][p] = true
 	}
@@ -788,6 +976,31 @@ func runBatch(r *core.Run, scens []scenario, base int, drift *int) {
 	for i := range out.Results {
 		byID[out.Results[i].ID] = &out.Results[i]
 	}
+	// run the bundles whose modules record what they really load
+	var items []execReq
+	for i, b := range builds {
+		if len(b.errs) > 0 || !b.w.exec {
+			continue
+		}
+		for _, t := range b.texts {
+			if t.kind == "js" {
+				items = append(items, execReq{ID: fmt.Sprint(i), Format: b.rc.scen.Format, Code: t.text})
+			}
+		}
+	}
+	execByID := map[string]*execRes{}
+	if len(items) > 0 {
+		var eo struct {
+			Results []execRes `json:"results"`
+		}
+		if err := nodex.Run(r, "meta_exec.js", map[string]interface{}{"dir": filepath.Join(r.Scratch, fmt.Sprintf("exec%d", base)), "items": items}, &eo, 10*time.Minute, ""); err != nil {
+			r.Infra("running the bundles failed: %v", err)
+			return
+		}
+		for i := range eo.Results {
+			execByID[eo.Results[i].ID] = &eo.Results[i]
+		}
+	}
 	var recs []*record
 	for i, b := range builds {
 		s := scens[i]
@@ -799,20 +1012,73 @@ func runBatch(r *core.Run, scens []scenario, base int, drift *int) {
 			r.Infra("scenario %s: %v", s.id(), err)
 			continue
 		}
+		if b.w.exec {
+			if err := b.fillExec(execByID[fmt.Sprint(i)]); err != nil {
+				r.Infra("scenario %s: %v", s.id(), err)
+				continue
+			}
+			b.driftRes(r, drift)
+		}
 		rd := read[b.root]
 		if len(rd) == 0 {
 			r.Infra("no scan.parse events for the build in %s (hook missing?)", b.root)
 			continue
 		}
-		for _, p := range sortedKeys(rd) {
-			b.rc.Read = append(b.rc.Read, p)
+		// the files read, under the names the metafile gives them (see fileOf)
+		named := map[string]bool{}
+		for _, in := range b.rc.Inputs {
+			if f := fileOf(in.Path); f != in.Path && rd[f] {
+				b.rc.Read = append(b.rc.Read, in.Path)
+				named[f] = true
+			}
 		}
+		isIn := map[string]bool{}
+		for _, in := range b.rc.Inputs {
+			isIn[in.Path] = true
+		}
+		for _, p := range sortedKeys(rd) {
+			if !named[p] || isIn[p] {
+				b.rc.Read = append(b.rc.Read, p)
+			}
+		}
+		sort.Strings(b.rc.Read)
 		os.RemoveAll(b.root)
 		rc := b.rc
 		r.Case(s.id(), rc.multi || rc.subst)
 		if rc.subst != s.Substitutes || rc.multi != s.Multi {
 			*drift++
 			r.Drift("MetaGen predicts substitutes=%v multi=%v for %s, the real metafile shows substitutes=%v multi=%v", s.Substitutes, s.Multi, s.id(), rc.subst, rc.multi)
+		}
+		cov.exactSections += len(rc.Exact)
+		cov.glueOutputs += len(rc.Glue)
+		if rc.Exec {
+			cov.executed++
+			cov.realEdges += len(rc.REdges)
+		}
+		// outputs into which paths of both kinds were substituted (an emitted asset and another chunk)
+		kinds := map[string]map[string]bool{}
+		for _, m := range rc.OImports {
+			if m.External {
+				continue
+			}
+			if kinds[m.Out] == nil {
+				kinds[m.Out] = map[string]bool{}
+			}
+			if m.Kind == "file-loader" || m.Kind == "url-token" {
+				kinds[m.Out]["asset"] = true
+			} else {
+				kinds[m.Out]["chunk"] = true
+			}
+		}
+		for _, k := range kinds {
+			if len(k) == 2 {
+				cov.mixedKindOutputs++
+			}
+		}
+		for _, m := range rc.IImports {
+			if m.Disabled || (!m.External && m.Spec != "<pattern>" && !strings.HasPrefix(m.Spec, ".") && m.Spec != m.Path) {
+				cov.redirected++
+			}
 		}
 		if (base+i)%97 == 0 {
 			r.Sample(map[string]interface{}{"scenario": s, "outputs": rc.Outputs, "inputs": rc.Inputs, "contributions": rc.OInputs})
@@ -842,6 +1108,9 @@ func Run(r *core.Run) {
 	r.Assume("imports/exports of the emitted code are obtained by re-parsing it with the acorn that Node 20 embeds (JS) and a CSS tokenizer (@import, url()); a string literal of a JS output that resolves to an emitted asset is a file-loader reference")
 	r.Assume("the set of files read into the bundle is the set of scan.parse hook events of the build (per working directory)")
 	r.Assume("every input carries a unique marker literal; the code a file-loader input contributes to a JS/CSS output is the path of its emitted copy")
+	r.Assume("in output that keeps its white space the text printed for an input lies between its path comment and the next path comment or the linker's tail (export clause, CommonJS annotation, IIFE close, end-of-file legal comments, link comments); the inputs of the scenarios contain no such line themselves")
+	r.Assume("group res: every module records at run time (Node 20, node/meta_exec.js) that it was evaluated and the id of every module it received; a module that the browser map disables or an external module has no id")
+	cov.exactSections, cov.glueOutputs, cov.executed, cov.realEdges, cov.mixedKindOutputs, cov.redirected = 0, 0, 0, 0, 0, 0
 	rec.Install()
 	if root, err := filepath.EvalSymlinks(r.Scratch); err == nil {
 		r.Scratch = root
@@ -887,15 +1156,37 @@ func Run(r *core.Run) {
 	}
 	sort.Slice(scens, func(i, j int) bool { return scens[i].id() < scens[j].id() })
 	r.Set("scenarios_enumerated", len(scens))
-	if !r.Thorough() {
-		var pick []scenario
+	if only := os.Getenv("C19_ONLY"); only != "" { // developer aid: restrict to some families / mechanisms
+		var keep []scenario
 		for _, s := range scens {
-			if r.Rand.Intn(6) == 0 {
-				pick = append(pick, s)
+			for _, f := range strings.Split(only, ",") {
+				if s.Family == f || s.Mech == f {
+					keep = append(keep, s)
+				}
 			}
 		}
-		scens = pick
+		scens = keep
 	}
+	// seeded sub-sampling per group: quick 1/9 of base, 1/12 of mix, 1/3 of res; thorough all of base and res, 1/2 of mix
+	rate := map[string]int{"mix": r.Pick(12, 2), "res": r.Pick(3, 1)}
+	var pick []scenario
+	groups := map[string]int{}
+	for _, s := range scens {
+		n := rate[s.Family]
+		if n == 0 {
+			n = r.Pick(9, 1)
+		}
+		if n == 1 || r.Rand.Intn(n) == 0 {
+			pick = append(pick, s)
+			g := s.Family
+			if g != "mix" && g != "res" {
+				g = "base"
+			}
+			groups[g]++
+		}
+	}
+	scens = pick
+	r.Set("scenarios_built_by_group", groups)
 	r.Logf("%d scenarios to build", len(scens))
 	drift := 0
 	const chunk = 1200
@@ -907,7 +1198,13 @@ func Run(r *core.Run) {
 		runBatch(r, scens[i:j], i, &drift)
 	}
 	wg.Wait()
-	r.Set("rule", "case = one scenario of MetaGen.tla (family x path style x minify x format x source maps x legal comments) built with the real api.Build; non-trivial = two or more inputs contribute to one output, or a final path was substituted into an output (an output imports another emitted file); every build becomes one record validated by TLC against MetaState.tla")
+	r.Set("exact_sections_compared", cov.exactSections)
+	r.Set("outputs_with_glue_equation", cov.glueOutputs)
+	r.Set("bundles_executed", cov.executed)
+	r.Set("runtime_import_edges_compared", cov.realEdges)
+	r.Set("outputs_with_asset_and_chunk_paths", cov.mixedKindOutputs)
+	r.Set("resolution_dependent_import_edges", cov.redirected)
+	r.Set("rule", "case = one scenario of MetaGen.tla (base: family x path style x minify level x format x source maps x legal comments; mix: assets x lazy pages x name lengths x css x shared entry x import order x path templates x minify level; res: resolution mechanism x platform x main fields x reference kinds x preserveSymlinks x format x minify) built with the real api.Build; non-trivial = two or more inputs contribute to one output, or a final path was substituted into an output (an output imports another emitted file); every build becomes one record validated by TLC against MetaState.tla")
 }
 
 func init() { core.Register("C19", Run) }
